@@ -9,7 +9,9 @@
    Quantification: every theorem is over ALL histories (lists of operations of any length: seek
    with any offset and any `from_what`, read with any count, write of any bytes, slices with any
    bounds of any view created so far -- slices of slices to any depth --, tell, len, address,
-   flush, close, free), over every base address and length, over every memory content. *)
+   flush, close, free, `with` blocks entered and left, reads/writes during which the controller
+   raises or with TruncationWarning turned into an exception), over every base address and
+   length, over every memory content. *)
 From Coq Require Import ZArith List Bool.
 Require Import Rig.Model.Base Rig.Model.MemIO Rig.Spec.MemIO Rig.Proofs.MemIO Rig.Proofs.MemIORefine.
 Import ListNotations.
@@ -110,6 +112,36 @@ Theorem C13_truncation_warned_write :
       /\ (0 <= v_off v <= vlen v -> 0 < o_warns out -> k < zlen bs).
 Proof. exact write_truncation. Qed.
 
+(* ---- A transfer that fails transfers nothing: the position does not move ----------------------- *)
+
+(* read/write during which the machine controller raises (FaultRead/FaultWrite: the exception comes
+   out as Failed 2), or with TruncationWarning raised as an exception (StrictRead/StrictWrite: Failed 3),
+   or on a dead view (Failed 0): whenever such a call fails, the WHOLE state is as before -- the
+   position of the view, the views, the memory -- and nothing was recorded as transferred. *)
+Theorem C13_failed_transfer_leaves_state :
+  forall st i vo st' out k,
+    disturbed vo = true -> step st (OView i vo) = (st', out) -> o_res out = Failed k ->
+    st' = st /\ o_calls out = [].
+Proof. exact failed_transfer_leaves_state. Qed.
+
+(* ... and the faulted call fails exactly when the plain call would have reached the controller;
+   otherwise it is the plain call (the warnings given before the transfer have been given) *)
+Theorem C13_fault_outcome :
+  forall fr m v, dead fr v = false ->
+    (forall n, let plain := vstep fr m v (Read n) in
+       vstep fr m v (FaultRead n) =
+         match o_calls (snd plain) with
+         | [] => plain
+         | _ :: _ => (v, None, mkOut (Failed 2) (o_warns (snd plain)) [])
+         end)
+    /\ (forall bs, let plain := vstep fr m v (Write bs) in
+       vstep fr m v (FaultWrite bs) =
+         match o_calls (snd plain) with
+         | [] => plain
+         | _ :: _ => (v, None, mkOut (Failed 2) (o_warns (snd plain)) [])
+         end).
+Proof. exact fault_outcome. Qed.
+
 (* ---- A slice covers exactly the clipped sub-range it names ------------------------------------ *)
 
 (* view[a:b] (a, b absent, negative, beyond the end or reversed) of a view of n bytes: a new open view
@@ -128,8 +160,10 @@ Proof. exact slice_range. Qed.
 
 (* Once view i is closed or the allocation freed, in every continuation every seek, read, write,
    slice, tell, address, flush on view i raises OSError, with no controller call and no warning
-   (out = err 0).  [guarded] excludes len(), which still answers, and close(), which is a no-op on a
-   closed view and raises OSError on an open view of a freed allocation (C13_close_kills). *)
+   (out = err 0) -- also when the environment misbehaves (FaultRead/FaultWrite/StrictRead/StrictWrite).
+   [guarded] excludes len(), which still answers, close() / __exit__, which are a no-op on a closed
+   view and raise OSError on an open view of a freed allocation (C13_close_kills, C13_exit_closes), and
+   __enter__, which returns the object. *)
 Theorem C13_dead_after_close_or_free :
   forall ops st i v,
     nth_error (st_views st) i = Some v -> dead (st_freed st) v = true ->
@@ -145,6 +179,18 @@ Theorem C13_close_kills :
     exists v', nth_error (st_views st') i = Some v' /\ dead (st_freed st') v' = true
                /\ o_calls out = [] /\ (o_res out = Ok VNone \/ o_res out = Failed 0).
 Proof. exact close_kills. Qed.
+
+(* Leaving a `with view:` block closes the view however the block is left: __exit__ ignores the
+   exception it is given (the model's Exit has no exception argument because the code never looks at
+   it) and calls close().  So after a with block -- left normally, by an exception of the body, by a
+   failed transfer, by a TruncationWarning raised as an error -- view i is dead, and by
+   C13_dead_after_close_or_free every later operation on it fails. *)
+Theorem C13_exit_closes :
+  forall st i v st' out,
+    nth_error (st_views st) i = Some v -> step st (OView i Exit) = (st', out) ->
+    exists v', nth_error (st_views st') i = Some v' /\ dead (st_freed st') v' = true
+               /\ o_calls out = [] /\ (o_res out = Ok VNone \/ o_res out = Failed 0).
+Proof. exact exit_kills. Qed.
 
 (* free() leaves the allocation freed -- hence every view of it, of any depth, dead -- and its only
    controller call is sdram_free *)
